@@ -356,6 +356,21 @@ func c11run(p c11plan, seed int64) c11obs {
 	} else if v == stuck.Watchdog {
 		obs.lateCall = "watchdog"
 	}
+	// the endpoint runs the close callbacks in goroutines of their own: "ran 0 times" is decided by the
+	// quiescence detector (no goroutine can move any more), never by the clock
+	{
+		stuck.WaitFunc(func() bool {
+			if atomic.LoadInt32(&obs.callbacks) < 1 {
+				return false
+			}
+			for k := range obs.moreCallbacks {
+				if atomic.LoadInt32(&obs.moreCallbacks[k]) < 1 {
+					return false
+				}
+			}
+			return true
+		}, &progress, 2*time.Minute)
+	}
 	// let a second (wrong) callback invocation surface
 	for y := 0; y < 20; y++ {
 		time.Sleep(50 * time.Microsecond)
@@ -502,6 +517,8 @@ func c11real(c *wk.Ctx, i int, rng *rand.Rand) {
 		c.Viol("real", i, "late-call=success/"+side, "a call issued after the connection was lost returned success", detail)
 		return
 	}
+	// close callbacks run in goroutines of their own: "not run" is decided by quiescence, not by the clock
+	stuck.WaitFunc(func() bool { return atomic.LoadInt32(&callbacks) >= 1 }, &progress, 2*time.Minute)
 	for y := 0; y < 20; y++ {
 		time.Sleep(50 * time.Microsecond)
 	}
